@@ -418,7 +418,7 @@ func Not(a Atom) Atom {
 	return Atom{Name: "!(" + a.Name + ")", Match: func(c Cond) Pol { return a.Match(c).Flip() }}
 }
 
-func anyVal(ssa.Value) bool   { return true }
+func anyVal(ssa.Value) bool     { return true }
 func isNilVal(v ssa.Value) bool { return IsNilConst(v) }
 
 // ErrNil: "the error value matched by M is nil".
@@ -495,7 +495,7 @@ func VConstObj(c *types.Const) func(ssa.Value) bool {
 	return func(v ssa.Value) bool {
 		v = Strip(v)
 		k, ok := v.(*ssa.Const)
-		return ok && k.Value != nil && constant.Compare(k.Value, token.EQL, c.Val())
+		return ok && k.Value != nil && k.Value.Kind() == c.Val().Kind() && constant.Compare(k.Value, token.EQL, c.Val())
 	}
 }
 func VLen(M func(ssa.Value) bool) func(ssa.Value) bool {
@@ -675,7 +675,6 @@ func VSelfOrEmbedded(pred func(ssa.Value) bool) func(ssa.Value) bool {
 		return false
 	}
 }
-
 
 // reachingStore resolves a load from a multi-store local cell (typically a named
 // result such as `err` that lives in memory because of a defer) to the value of
